@@ -311,7 +311,10 @@ def main():
         broken.append({"obligation": t, "kind": "generated kernel obligation" if t in gen_targets else "property theorem module",
                        "log": errs})
     for k in unsupported:
-        ctx.notes.append(f"kernel {k['name']} could not be extracted ({k.get('reason')}); falling back to correspondence")
+        # the source no longer has the shape the translator reads: the obligation `Gen.k = Model.k` cannot be stated, so it is not discharged
+        ctx.notes.append(f"kernel {k['name']} could not be extracted ({k.get('reason')})")
+        broken.append({"obligation": f"DpapiNg.Gen.{k['name']}_eq", "kind": "generated kernel obligation (source expression not found / not translatable)",
+                       "log": str(k.get("reason"))})
 
     # --- B. audit ---------------------------------------------------------------------------
     theorems = list(getattr(mod, "THEOREMS", []))
